@@ -20,8 +20,8 @@ VERIF = os.path.dirname(os.path.dirname(os.path.abspath(__file__)))
 REPO = os.environ.get("VERIF_REPO", "/repo")
 SPEC = os.path.join(VERIF, "spec")
 HARNESS = os.path.join(VERIF, "harness")
-EVIDENCE = os.path.join(VERIF, "evidence")
-REPLAYS = os.path.join(VERIF, "replays")
+EVIDENCE = os.environ.get("VERIF_EVIDENCE_DIR") or os.path.join(VERIF, "evidence")
+REPLAYS = os.path.join(VERIF, "replays") if not os.environ.get("VERIF_EVIDENCE_DIR") else os.path.join(os.environ["VERIF_EVIDENCE_DIR"], "replays")
 TLAJAR = "/opt/veriftools/tla/tla2tools.jar:/opt/veriftools/tla/CommunityModules-deps.jar"
 NCPU = os.cpu_count() or 4
 
@@ -78,9 +78,17 @@ def build_harness(race=False, tags="verif"):
     if key in _built:
         return _built[key]
     out = os.path.join(scratch("bin"), "vdrv" + ("-race" if race else "") + ("-" + tags if tags != "verif" else ""))
+    src = HARNESS
+    if os.path.abspath(REPO) != "/repo":
+        # seeded-change runs point VERIF_REPO at a scratch worktree: build a copy of the harness module against it
+        src = os.path.join(scratch_root(), "harness-src")
+        if not os.path.isdir(src):
+            shutil.copytree(HARNESS, src)
+            gm = open(os.path.join(src, "go.mod")).read().replace("=> /repo", "=> " + os.path.abspath(REPO))
+            open(os.path.join(src, "go.mod"), "w").write(gm)
     # keep go.sum in sync with the repository's
     try:
-        shutil.copyfile(os.path.join(REPO, "go.sum"), os.path.join(HARNESS, "go.sum"))
+        shutil.copyfile(os.path.join(REPO, "go.sum"), os.path.join(src, "go.sum"))
     except OSError:
         pass
     cmd = ["go", "build"]
@@ -90,7 +98,7 @@ def build_harness(race=False, tags="verif"):
         cmd += ["-race"]
     cmd += ["-o", out, "./cmd/vdrv"]
     t0 = time.time()
-    p = subprocess.run(cmd, cwd=HARNESS, env=go_env(), stdout=subprocess.PIPE, stderr=subprocess.STDOUT, text=True)
+    p = subprocess.run(cmd, cwd=src, env=go_env(), stdout=subprocess.PIPE, stderr=subprocess.STDOUT, text=True)
     if p.returncode != 0:
         raise MachineryError("harness build failed (does /repo still compile with -tags verif?):\n" + p.stdout[-4000:])
     log("[build] vdrv%s built in %.1fs" % (" (-race)" if race else "", time.time() - t0))
